@@ -849,7 +849,26 @@ class Exec:
             op = rv["op"]
             if op.endswith("WithOverflow"):
                 sym = BINOPS[op[:-12]]
-                return ("adt", "tuple", (0, ""), (("0", fold(sym, a, b)), ("1", ("ovf", sym, a, b))), False)
+                val_ = fold(sym, a, b)
+
+                def ifold(sy_, l_, r_):
+                    # integer identities (not for f64: -0.0 + 0.0 is +0.0)
+                    if sy_ in ("+", "-") and r_ == cu(0):
+                        return l_
+                    if sy_ == "+" and l_ == cu(0):
+                        return r_
+                    if sy_ == "*" and r_ == cu(1):
+                        return l_
+                    if sy_ == "*" and l_ == cu(1):
+                        return r_
+                    return fold(sy_, l_, r_)
+                # `n + usize::from(c)`: an integer added to a choice between two constants is the choice between the two sums
+                for x_, y_, left_ in ((a, b, False), (b, a, True)):
+                    if sym in ("+", "*") or (sym == "-" and not left_):
+                        if isinstance(y_, tuple) and y_ and y_[0] == "gamma" and is_const(y_[2]) and is_const(y_[3]) and not (isinstance(x_, tuple) and x_ and x_[0] == "gamma"):
+                            val_ = mk_gamma(y_[1], ifold(sym, x_, y_[2]) if not left_ else ifold(sym, y_[2], x_), ifold(sym, x_, y_[3]) if not left_ else ifold(sym, y_[3], x_))
+                            break
+                return ("adt", "tuple", (0, ""), (("0", val_), ("1", ("ovf", sym, a, b))), False)
             if op == "Cmp":
                 return ("cmp3", a, b)
             if op == "Offset":
@@ -1632,6 +1651,12 @@ class Exec:
                     g_ = self.F.fn_by_path.get(clo[1])
                     return self.inline(st, g_, cargs) if g_ is not None else self.std_call(st, {"path": clo[1], "path_args": clo[1]}, clo[1], cargs, t)
                 return self.call_closure(st, clo, cargs)
+        if re.search(r"<impl (std|core)::convert::From<bool> for (usize|u8|u16|u32|u64|i8|i16|i32|i64|isize)>::from$", callees.strip_turbofish(n)) and len(args) == 1:
+            b_ = args[0]
+            if b_ in (TRUE, FALSE):
+                return cu(1) if b_ == TRUE else cu(0)
+            if isinstance(b_, tuple) and b_ and (b_[0] in CMP or b_[0] in ("not", "gamma")):
+                return map_leaves(b_, lambda x: cu(1) if x == TRUE else (cu(0) if x == FALSE else mk_gamma(x, cu(1), cu(0)))) if b_[0] == "gamma" else mk_gamma(b_, cu(1), cu(0))
         if re.search(r"num::(nonzero::)?NonZero(::<.*>)?::new$", n) and len(args) == 1:
             v = dv[0]
             if is_const(v):
